@@ -13,7 +13,7 @@ from vf.core import Result, lib
 ID = "C07"
 TITLE = "Density, formation volume factor and compressibility are mutually consistent"
 LEVEL = "exploration"
-BUDGET = {"quick": 4000, "thorough": 1200000}
+BUDGET = {"quick": 8000, "thorough": 1200000}
 SHRINK = {"quick": True, "thorough": True}
 RULE = (
     "Hypothesis draws a gas state on the Z-factor rectangle (as C06) with gas gravity 0.55..1.2 and a second "
